@@ -244,7 +244,14 @@ func observeArgv(sc *Scenario, ord Order, st *obsStats, shared []string) (out st
 				fmt.Fprintf(&b, "PANIC %v\n", p)
 			}
 		}()
-		for _, kv := range sc.Env {
+		// the environment is a set: the order in which the variables were exported is not part of it
+		envOrder := append([][2]string(nil), sc.Env...)
+		if ord.Base == "desc" || (ord.Base == "shuffle" && ord.Seed%2 == 1) {
+			for i, j := 0, len(envOrder)-1; i < j; i, j = i+1, j-1 {
+				envOrder[i], envOrder[j] = envOrder[j], envOrder[i]
+			}
+		}
+		for _, kv := range envOrder {
 			os.Setenv(kv[0], kv[1])
 		}
 		if sc.SelfEmpty {
@@ -264,6 +271,13 @@ func observeArgv(sc *Scenario, ord Order, st *obsStats, shared []string) (out st
 			var w, cw bytes.Buffer
 			oldW := getoptions.Writer
 			getoptions.Writer = &w
+			var devnull *os.File
+			if writerIsDevice {
+				if f, err := os.OpenFile(os.DevNull, os.O_WRONLY, 0); err == nil {
+					devnull = f
+					getoptions.Writer = f
+				}
+			}
 			oldCW := getoptions.VerifSetCompletionWriter(&cw)
 			exit := -1
 			oldExit := getoptions.VerifSetExit(func(c int) { exit = c })
@@ -277,6 +291,9 @@ func observeArgv(sc *Scenario, ord Order, st *obsStats, shared []string) (out st
 			}
 			func() {
 				defer func() {
+					if devnull != nil {
+						devnull.Close()
+					}
 					getoptions.Writer = oldW
 					getoptions.VerifSetCompletionWriter(oldCW)
 					getoptions.VerifSetExit(oldExit)
@@ -393,6 +410,21 @@ func observeArgv(sc *Scenario, ord Order, st *obsStats, shared []string) (out st
 	return b.String()
 }
 
+// helpLines extracts the "help ..." lines of an observation.
+func helpLines(obs string) string {
+	var out []string
+	for _, l := range strings.Split(obs, "\n") {
+		if strings.HasPrefix(l, "help ") || strings.HasPrefix(l, "help-sections ") {
+			out = append(out, l)
+		}
+	}
+	return strings.Join(out, "\n")
+}
+
+// writerIsDevice: during the next observation getoptions.Writer is a real file handle on a
+// character device (/dev/null), as when a program's stderr is a terminal.
+var writerIsDevice bool
+
 func firstLine(s string) string {
 	if i := strings.Index(s, "\n"); i >= 0 {
 		return s[:i]
@@ -460,6 +492,14 @@ func check(sc *Scenario, seed uint64, k int, st *obsStats, nexec *int) *disagree
 		if got != base {
 			return &disagreement{os[0], o, firstDiff(base, got), "order"}
 		}
+	}
+	// what Help() returns must not depend on where warnings would be written to
+	writerIsDevice = true
+	dev := observe(sc, os[0], st)
+	writerIsDevice = false
+	*nexec++
+	if helpLines(dev) != helpLines(base) {
+		return &disagreement{os[0], os[0], "Help() differs when getoptions.Writer is a file handle on a character device: " + firstDiff(helpLines(base), helpLines(dev)), "writer-device"}
 	}
 	// hidden state: the very same schedule again, after the others ran in this process
 	again := observeArgv(sc, os[0], st, callerArgv)
@@ -571,7 +611,24 @@ func idempotenceLine(sc *Scenario, o Order) string {
 	return line
 }
 
+func writerDeviceDiff(sc *Scenario, o Order) string {
+	a := helpLines(observe(sc, o, nil))
+	writerIsDevice = true
+	b := helpLines(observe(sc, o, nil))
+	writerIsDevice = false
+	if a == b {
+		return ""
+	}
+	return "Help() differs when getoptions.Writer is a file handle on a character device: " + firstDiff(a, b)
+}
+
 func differs(sc *Scenario, d *disagreement, seed uint64) *disagreement {
+	if d.kind == "writer-device" {
+		if l := writerDeviceDiff(sc, d.a); l != "" {
+			return &disagreement{d.a, d.a, l, "writer-device"}
+		}
+		return nil
+	}
 	if d.kind == "idempotence" {
 		if l := idempotenceLine(sc, d.a); l != "" {
 			return &disagreement{d.a, d.a, l, "idempotence"}
@@ -1097,6 +1154,9 @@ func headLines(s string, n int) []string {
 
 // differsExact replays the recorded pair of orders; returns the first difference ("" = none).
 func differsExact(rf *ReplayFile) string {
+	if rf.Kind == "writer-device" {
+		return writerDeviceDiff(rf.Scenario, rf.OrderA)
+	}
 	if rf.Kind == "idempotence" {
 		return idempotenceLine(rf.Scenario, rf.OrderA)
 	}
